@@ -111,7 +111,13 @@ func newC16Env(tag string, started []int, topo []int, opt func(*proxy.Config)) *
 	if opt != nil {
 		opt(&cfg)
 	}
+	// setting up is not what is judged: a start that times out on a loaded machine (some families use a connect
+	// time-out of 300 ms on purpose) is tried again
 	env, err := px.StartProxy(be, cfg)
+	for attempt := 0; err != nil && attempt < 5; attempt++ {
+		time.Sleep(300 * time.Millisecond)
+		env, err = px.StartProxy(be, cfg)
+	}
 	if err != nil {
 		panic(err)
 	}
